@@ -17,7 +17,7 @@ MISMATCH_FN = "mismatch current_cfg"
 VIOLATES_FN = "violates"
 RULE = ("diff cases = one generated history of 9-13 blocks (oracle prevote/vote by 3 validators, sudo EditSudoers with 3-6 "
         "contracts, EVM transfers / deploys / calls writing 1-5 slots and paying 0-4 fresh accounts, FunToken create/convert, "
-        "precompile calls, single txs that pay 2-12 fresh accounts and THEN call a Nibiru precompile (intermediate StateDB commit), sudo-gated oracle / inflation param edits, tokenfactory (sudo) denom metadata, gov proposals updating evm / devgas params (voted and executed), EVM access lists - every repeated message field with 6-15 entries in random order WITH DUPLICATES -, tokenfactory, authz grant/exec, delegate, bank send/multisend, day jumps for epochs+inflation) "
+        "precompile calls, EOA->precompile txs with unknown selectors / truncated / malformed calldata for all three precompiles (VM error inside ResponseDeliverTx.Data), single txs that pay 2-12 fresh accounts and THEN call a Nibiru precompile (intermediate StateDB commit), sudo-gated oracle / inflation param edits, tokenfactory (sudo) denom metadata, gov proposals updating evm / devgas params (voted and executed), EVM access lists - every repeated message field with 6-15 entries in random order WITH DUPLICATES -, tokenfactory, authz grant/exec, delegate, bank send/multisend, day jumps for epochs+inflation) "
         "executed on 3 replicas from one genesis through BeginBlock/DeliverTx/EndBlock/Commit, compared per block on app hash, "
         "tx results and validator updates; non-trivial = the history successfully ran a multi-contract sudo edit AND an oracle "
         "vote round AND (an EVM call/deploy or a bank multisend that creates >= 2 accounts in one tx). Sub-model cases (sudo, "
@@ -186,7 +186,10 @@ def model_search(chk):
                           {"kind": "iparams", "a": 0, "b": 0, "c": 0, "l": [1, 4, 4, 2, 7, b]},
                           {"kind": "govparams", "a": b % 2, "b": b % 4, "c": 0, "l": [3, 1, 4, 1, 5, 2, 6, 5, 3, b]},
                           {"kind": "sudo", "a": 1, "b": 0, "c": 0, "l": [2, 9, 4, 9, 17, 1, 22, 4, 11, b]}]} for b in range(8)]}
-    return [pch, lists, sudo, evmh, orc]
+    raw = {"t": "diff", "child": True, "blocks": [
+        {"dt": 5, "ops": [{"kind": "pcraw", "a": w, "b": w, "c": (b + w) % 8, "l": [17 * b + w]} for w in range(3)] +
+                         [{"kind": "pcraw", "a": b, "b": b, "c": 0, "l": [b]}]} for b in range(6)]}
+    return [pch, lists, raw, sudo, evmh, orc]
 
 
 MANIFEST = {
